@@ -336,4 +336,7 @@ theorem run_Ainv (c : Cfg) (n : Nat) (s : St) (h : Ainv c s) : Ainv c (run c n s
 theorem annot_flat (c : Cfg) (n : Nat) : annot c ((flat (run c n init).trace).map Obs.raw) = flat (run c n init).trace :=
   (run_Ainv c n init ⟨rfl, rfl, rfl⟩).ann
 
+theorem annot_flat_final (c : Cfg) : annot c ((flat (final c).trace).map Obs.raw) = flat (final c).trace := by
+  rw [show (final c).trace = (run c fuel init).trace from rfl]; exact annot_flat c fuel
+
 end MosnVerif.Model.FilterSpec
